@@ -75,8 +75,16 @@ Section HttpAbs.
      software header, substrings of tokens; `swc` = the substrings to consider *)
   Definition cands (swc : list bytes) (n : bytes) : list bytes :=
     (if valued n then lits n else []) ++ (if swnamed n then swc else []).
+  (* a necessary condition on the values a well-formed message can carry: a request's Accept-Language value is a list of
+     language ranges (Spec/Http1Grammar.v wf), so it is empty or starts with a letter or `*` — this prunes literals such
+     as `;q=` that are substrings, never whole values *)
+  Definition value_feasible (n v : bytes) : bool :=
+    match k with
+    | HReq => if ci_eq n (bs "accept-language")
+              then match v with [] => true | b :: _ => is_alpha b || beqb b "*"%byte end else true
+    | HResp => true end.
   Definition choices (swc : list bytes) (sh : header) : list aval :=
-    map AExact (filter (conf_value (h_value sh)) (cands swc (h_name sh))) ++ [AFresh].
+    map AExact (filter (fun l => conf_value (h_value sh) l && value_feasible (h_name sh) l) (cands swc (h_name sh))) ++ [AFresh].
 
   (* the software condition of the signature, on the abstract message *)
   Definition abs_sw (tok : bytes) (lower : bytes) (am : list afield) : bool :=
